@@ -24,21 +24,29 @@ ASSUMPTIONS = ['action callables have no effects outside the registry keys of th
                '(checked by the monitored run for every executed action, not proved)',
                'equal stores in the free interpretation stand for equal applications (validated by the probes)',
                'conflict-free = pairwise different discriminators (no overriding through nesting in the generated programs)']
-TRUSTED = ['store model coq/Model/C08.v (statement = phase, reads, writes, mode); declared read/write table '
+TRUSTED = ['translator harness/c08/translate.py: its PRIMITIVE TABLE (how an action call, a directive call, the argument atoms of '
+           'add_request_method / add_static_view, maybe_dotted, make_property, begin/end/undefer/register/append map onto the '
+           'model primitives) and the INERT / GUARD rules (statements without action calls that assign no emission-relevant name '
+           'are skipped; validation raises are summarised by `valid`); control flow is translated mechanically',
+           'store model coq/Model/C08.v (statement = phase, reads, writes, mode); declared read/write table '
            'harness/c08/tables.py (checked by Coq against the regenerated phases and by the registry monitor at run time)',
-           'C04 model of execute_actions/resolveConflicts (coq/Model/C04.v) for the executed order; its agreement with the '
-           'sort-by-phase schedule is checked per case, proved in C04 only up to run_groups',
+           'C04 model of execute_actions/resolveConflicts (coq/Model/C04.v) for the executed order (C08_commit_runs_schedule)',
            'zope.interface registry, WebOb']
-TECHNIQUE = ('Coq proof of the scheduling theorem over a store model with phase discipline + regenerated directive/phase table '
-             'checked by vm_compute + monitored registry + metamorphic differential run against real Configurators')
+TECHNIQUE = ('Coq proof of the scheduling theorem over a store model with phase discipline; the directive emission functions (39 '
+             'directive methods) and the registration path (Configurator.action, ActionState.action, commit) are REGENERATED from '
+             'the Python source by a fail-closed ast->Gallina translator on every run and proved equal to the hand-written '
+             'reference model; regenerated phase table checked by vm_compute; monitored registry; metamorphic differential run')
 LEVEL_TEXT = ('Machine-checked: for programs of any size, a permutation that keeps the order inside each ordered container, under '
-              'write discipline H1 and phase discipline H2, yields pointwise equal final stores (commit_permutation_invariant), and a '
-              'reader sees the value of a writer declared later when the writer is in an earlier phase (forward_reference_ok); the '
-              'regenerated phase table satisfies H2 for the declared read table (table_ok_holds) and every statement conforming to '
-              'the table satisfies H2 (table_discipline).')
+              'write discipline H1 and phase discipline H2, yields pointwise equal final stores, also over the real C04 commit model '
+              'and any include trees (commit_model_permutation_invariant); forward references are fine (forward_reference_ok); the '
+              'regenerated emission functions equal the reference model (generated_directives_are_model), agree with the regenerated '
+              'site/phase table (generated_calls_are_the_table), and every program made of calls of the regenerated directives satisfies '
+              'H2 (generated_programs_H2); the regenerated registration path equals its reference (generated_registration_path_is_model).')
 LEVEL_NOTE = ('PARTIAL by design: equality of whole applications is validated (metamorphic run), not proved. H2 rests on the declared '
-              'read table, which is regenerated for phases/discriminators and monitored at run time for reads. H1 rests on C04 conflict '
-              'detection (distinct discriminators). The executed order is the C04 model, compared with schedule per case.')
+              'read table (what the action CALLABLES read/write: monitored at run time, not translated). Translated mechanically: which '
+              'actions each directive declares, and the queuing/autocommit path of Configurator.action. Not translated (shape-pinned): '
+              'execute_actions/resolveConflicts (C04 model), Configurator.include, setup_registry, MultiView.add, PredicateList.add/make, '
+              'view derivers. Intermediate commits are validated only.')
 
 _state = {'sites': None, 'preds': None}
 
@@ -135,6 +143,40 @@ def expand(st, customs):
     raise ValueError(k)
 
 
+# directive codes = positions in Model/C08.v generated_directives
+DIRECTIVES = ['add_subscriber', 'add_subscriber_predicate', 'add_response_adapter', 'add_traverser',
+              'add_resource_url_adapter', 'override_asset', 'set_root_factory', 'set_session_factory', 'set_request_factory',
+              'set_response_factory', 'add_request_method', 'set_execution_policy', 'set_locale_negotiator',
+              'add_translation_dirs', '_add_predicate', 'add_renderer', 'add_route', 'add_route_predicate',
+              'set_security_policy', 'set_authentication_policy', 'set_authorization_policy', 'set_default_permission',
+              'add_permission', 'set_default_csrf_options', 'set_csrf_storage_policy', 'add_tween', '_add_tween', 'add_view',
+              'add_view_predicate', 'add_accept_view_order', 'add_view_deriver', 'set_view_mapper', 'add_forbidden_view',
+              'add_notfound_view', 'add_exception_view', 'add_static_view', 'add_cache_buster', 'static_info_add',
+              'static_info_add_cache_buster']
+KIND_DIRECTIVE = {'route': 'add_route', 'renderer': 'add_renderer', 'policy': 'set_security_policy',
+                  'defperm': 'set_default_permission', 'csrf': 'set_default_csrf_options', 'rootf': 'set_root_factory',
+                  'sessf': 'set_session_factory', 'reqf': 'set_request_factory', 'reqm': 'add_request_method',
+                  'static': 'add_static_view', 'vpred': 'add_view_predicate', 'rpred': 'add_route_predicate',
+                  'deriver': 'add_view_deriver', 'sub': 'add_subscriber', 'tween': 'add_tween', 'mapper': 'set_view_mapper'}
+VIEW_DIRECTIVE = {'view': 'add_view', 'notfound': 'add_notfound_view', 'forbidden': 'add_forbidden_view',
+                  'exc': 'add_exception_view'}
+
+
+def directive_of(st):
+    """(directive method called by the statement, [callable_none, property, reify, name_is_url])"""
+    flags = [0, 0, 0, 0]
+    if st['k'] == 'view':
+        return VIEW_DIRECTIVE[st.get('kind', 'view')], flags
+    if st['k'] == 'raw':
+        call = st['call']
+        if call == 'add_request_method_placeholder':
+            return 'add_request_method', [1, 0, 0, 0]
+        return call, flags
+    if st['k'] == 'reqm':
+        return 'add_request_method', [0, 1 if st.get('mode') == 'property' else 0, 1 if st.get('mode') == 'reify' else 0, 0]
+    return KIND_DIRECTIVE[st['k']], flags
+
+
 def _customs(case):
     return sorted(set(st['name'] for st in case['stmts'] if st['k'] == 'vpred'))
 
@@ -209,7 +251,13 @@ def to_wire(case):
             else:
                 n += sum(len(acts[i]) for i in G.flatten([it]))
         vs.append([nodes, pl, cuts])
-    return [ws, [num[k] for k in keys], vs]
+    # per statement: the directive it calls and the sites of the actions the expansion gives it
+    dirs = []
+    for st in case['stmts']:
+        d, flags = directive_of(st)
+        dirs.append([DIRECTIVES.index(d), flags,
+                     [sites.index(a['site']) if a['site'] in sites else 9999 for a in acts[st['id']]]])
+    return [ws, [num[k] for k in keys], vs, dirs]
 
 
 OBSERVED = ('routes', 'riface', 'view', 'renderer', 'policy', 'mapper', 'defperm', 'csrfopts', 'rootf', 'sessf', 'reqf', 'reqext',
@@ -571,7 +619,7 @@ def equiv(case, obs, model):
             return False
         if obs['monitor'] or not obs['decl_ok']:
             return False
-        if model['table'] != [1, 1, 1]:
+        if model['table'] != [1, 1, 1, 1]:
             return False
         for vi, vm in zip(obs['variants'], model['variants']):
             if vi['outcome'][0] == 'config-error' and vi['outcome'][1] != 'ConfigurationConflictError':
